@@ -1,7 +1,7 @@
 //! C04 — frames built through the real `CreatedFrame` API, observed as the bytes handed to the
 //! closure of `SendableFrame::send_blocking`.
-use crate::rng::Rng;
-use crate::util::{Report, dyn_storage, hex};
+use ecverif::rng::Rng;
+use ecverif::util::{Report, dyn_storage, hex, unhex};
 use core::time::Duration;
 use ethercrab::verif;
 use ethercrab::{Command, Reads, Writes};
@@ -317,6 +317,52 @@ pub fn run_case(case: &Case, rep: &mut Report) {
         rep.nontrivial.insert(line.clone());
     }
     rep.case(line, format!("{}|{}", results.join(";"), hex(&sent)));
+}
+
+fn parse_cmd(s: &str) -> Cmd {
+    let p: Vec<&str> = s.split('.').collect();
+    let n = |i: usize| p[i].parse::<u64>().unwrap();
+    match p[0] {
+        "nop" => Cmd::Nop,
+        "aprdpos" => Cmd::Pos("aprd", n(1) as u16, n(2) as u16),
+        "apwrpos" => Cmd::Pos("apwr", n(1) as u16, n(2) as u16),
+        "lrd" => Cmd::L("lrd", n(1) as u32),
+        "lwr" => Cmd::L("lwr", n(1) as u32),
+        "lrw" => Cmd::L("lrw", n(1) as u32),
+        k => {
+            let k: &'static str = ["aprd", "fprd", "brd", "frmw", "bwr", "apwr", "fpwr"].into_iter().find(|x| *x == k).unwrap();
+            Cmd::Ar(k, n(1) as u16, n(2) as u16)
+        }
+    }
+}
+
+pub fn parse_case(line: &str) -> Case {
+    let t: Vec<&str> = line.split(' ').collect();
+    let ops = t[3]
+        .split(';')
+        .map(|o| {
+            let f: Vec<&str> = o.split(',').collect();
+            match f[0] {
+                "p" => Op::Push(parse_cmd(f[1]), unhex(f[2]), if f[3] == "-" { None } else { Some(f[3].parse().unwrap()) }),
+                "r" => Op::Rest(parse_cmd(f[1]), unhex(f[2])),
+                _ => Op::Can(f[1].parse().unwrap()),
+            }
+        })
+        .collect();
+    Case { cap: t[1].parse().unwrap(), idx0: t[2].parse().unwrap(), ops }
+}
+
+fn main() {
+    let args = ecverif::parse_args();
+    let mut rep = Report::default();
+    if let Some(cases) = ecverif::replay_cases(&args) {
+        for c in cases.iter().filter(|c| c.starts_with("c04 ")) {
+            run_case(&parse_case(c), &mut rep);
+        }
+    } else {
+        run(&args.tier, args.seed, &mut rep);
+    }
+    rep.write(&args.out, "c04");
 }
 
 pub fn run(tier: &str, seed: u64, rep: &mut Report) {
